@@ -17,6 +17,8 @@
 #include "Store.h"
 #include "StrList.h"
 
+#include <limits>
+
 /*
  *    Currently only byte ranges are supported
  *
@@ -95,6 +97,11 @@ HttpHdrRangeSpec::parseInit(const char *field, int flen)
                     debugs(64, 2, "invalid (last-byte-pos < first-byte-pos) range-spec near: " << field);
                     return false;
                 }
+
+                // no representation has a byte at position INT64_MAX, so
+                // trimming there loses nothing and keeps last_pos + 1 defined
+                if (last_pos == std::numeric_limits<int64_t>::max())
+                    --last_pos;
 
                 HttpHdrRangeSpec::HttpRange aSpec (offset, last_pos + 1);
 
